@@ -157,12 +157,18 @@ def shard(task):
   vios, n, nontriv = {}, 0, 0
   bs = [svc.Backend(k) for k in task['backends']]
   for b in bs:
-    sc = svz.StudyConfig(algorithm='SCRIPTED')
-    build(sc.search_space.root)
-    sc.metric_information.append(vz.MetricInformation('m_', goal=vz.ObjectiveMetricGoal.MAXIMIZE))
-    st = b.servicer.CreateStudy(svc.vs.CreateStudyRequest(parent=svc.OWNER, study=study_pb2.Study(display_name='s', study_spec=sc.to_proto())))
-    client = vizier_client.VizierClient(st.name, 'cl', b.servicer)
-    cfg = svz.StudyConfig.from_proto(b.servicer.GetStudy(svc.vs.GetStudyRequest(name=st.name)).study_spec)
+    try:
+      sc = svz.StudyConfig(algorithm='SCRIPTED')
+      build(sc.search_space.root)
+      sc.metric_information.append(vz.MetricInformation('m_', goal=vz.ObjectiveMetricGoal.MAXIMIZE))
+      st = b.servicer.CreateStudy(svc.vs.CreateStudyRequest(parent=svc.OWNER, study=study_pb2.Study(display_name='s', study_spec=sc.to_proto())))
+      client = vizier_client.VizierClient(st.name, 'cl', b.servicer)
+      cfg = svz.StudyConfig.from_proto(b.servicer.GetStudy(svc.vs.GetStudyRequest(name=st.name)).study_spec)
+    except Exception as e:  # pylint: disable=broad-except
+      sig = 'C17|study-setup-raises:%s|%s' % (type(e).__name__, 'conditional' if name.startswith('cond') else name)
+      vios.setdefault(sig, {'sig': sig, 'desc': '[%s %s] building / storing / reading back the study raises %r' % (b.kind, name, e), 'case': {'space': name, 'assign': None}})
+      n += 1
+      continue
 
     def store(assign):
       t = study_pb2.Trial()
